@@ -510,6 +510,62 @@ theorem C17_invalid_closed_not_halting (env : Env Ext C Pm) (now : Int) (s : St 
   intro p he
   unfold enactAndClose; rw [he]
 
+/-- Sequential semantics of a begin block in which several proposals finish: for EVERY proposal `p` of the block
+    (`pre` = the proposals with smaller ids, `post` = the later ones) there is the state `si` left by processing `pre`
+    — in particular by the enactments before `p` in the same block — and `p` is decided on `si`, not on the state at
+    the start of the block: it is left alone, closed without effect, or enacted, and it is enacted only if on `si` its
+    committee exists and has permission for it and its handler runs, the handler's result on `si` being the new
+    external state.  So when the committee has lost the permission on `si`, or the handler fails on `si` — because an
+    earlier proposal of the same block used up what it needs — nothing of `p` is applied (and the block still neither
+    panics nor fails: `C17_invalid_closed_not_halting`). -/
+theorem C17_sequential_enactment (env : Env Ext C Pm) (now : Int) (s s' : St Ext C Pm)
+    (pre post : List (Proposal C)) (p : Proposal C) (hps : s.proposals = pre ++ p :: post)
+    (h : beginBlock env now s = .ok s') :
+    ∃ si si', processAll env now s pre = .ok si ∧ processOne env now si p = .ok si' ∧
+      processAll env now si' post = .ok s' ∧
+      (si' = si ∨ (∃ o, o ≠ Outcome.passed ∧ si' = close si p.id o) ∨
+        ∃ com e, getCommittee si p.cid = some com ∧ env.permits com.perms p.content si.ext = true ∧
+          env.handler p.content si.ext = some e ∧
+          si' = close { si with ext := e, log := si.log ++ [.enacted p.id] } p.id .passed) ∧
+      (((∀ com, getCommittee si p.cid = some com → env.permits com.perms p.content si.ext = false) ∨
+          env.handler p.content si.ext = none) →
+        si'.ext = si.ext ∧ Event.enacted p.id ∉ si'.log.drop si.log.length) := by
+  unfold beginBlock at h
+  rw [hps] at h
+  obtain ⟨si, si', ha, hb, hc⟩ := processAll_split env now pre p post s s' h
+  have he := processOne_effect env now si si' p hb
+  refine ⟨si, si', ha, hb, hc, he, ?_⟩
+  intro hbad
+  rcases he with rfl | ⟨o, _, rfl⟩ | ⟨com, e, hcom, hperm, hh, _⟩
+  · simp
+  · simp [close]
+  · rcases hbad with hnp | hnh
+    · rw [hnp com hcom] at hperm; cases hperm
+    · rw [hnh] at hh; cases hh
+
+/-- non-vacuity (the shape of the seeded defect this statement excludes): the external state is a lend position of
+    1000; two proposals to withdraw it all finish in the same block with passing tallies; the handler fails when
+    nothing is left.  The first is enacted, the second — valid on the state at the start of the block — is closed as
+    Invalid on the state the first one left, and the block does not panic. -/
+example :
+    let env : Env Nat Nat Unit := {
+      route := (fun _ => "r"), routes := ["r"], validBasic := (fun _ => true),
+      permits := (fun _ _ _ => true),
+      handler := (fun amt dep => if dep = 0 then none else some (dep - min amt dep)),
+      bal := (fun _ _ _ => 0), supply := (fun _ _ => 0) }
+    let com : Committee Unit := {
+      id := 1, token := false, members := [0], perms := (), threshold := ⟨P / 2⟩,
+      quorum := ⟨0⟩, duration := 10, fptp := false, denom := "" }
+    let s : St Nat Nat Unit := {
+      committees := [com], proposals := [⟨1, 1, 10, 1000⟩, ⟨2, 1, 10, 2000⟩],
+      votes := [⟨1, 0, .yes⟩, ⟨2, 0, .yes⟩], nextId := 3, ext := 1000, log := [] }
+    (env.handler 1000 s.ext).isSome = true ∧ (env.handler 2000 s.ext).isSome = true ∧
+    (match beginBlock env 10 s with
+      | .ok s' => decide (s'.ext = 0) && decide (s'.log = [.enacted 1, .closed 1 .passed, .closed 2 .invalid]) &&
+          s'.proposals.isEmpty
+      | _ => false) = true := by
+  decide +kernel
+
 /-- a failing handler (or a missing permission) at enactment time does give `.err` -/
 theorem C17_handler_failure_is_invalid (env : Env Ext C Pm) (s : St Ext C Pm) (p : Proposal C)
     (h : env.handler p.content s.ext = none) : enact env s p = .err := by
